@@ -27,6 +27,7 @@ TEXTS = [None, '', ' ', '   ', ' lead', 'trail ', '  both  ', 'a<b>&amp;"\'c', '
          'مرحبا abc 123', '\U0001F600 astral \U00020000', '\t tab\there', 'line\nbreak', 'cr\rx', 'crlf\r\nx', 'nel\u0085x', 'ls ps x',
          'nbsp x', '﻿bom', 'x' * 2048, '&#13; literal entity text', "quote ' \" mix", 'zero​width', 'plain text line']
 
+TEXTS7 = ['tag <hi>x</hi>\rcr', '<a>\r\n</a>', 'if a<b and c>d\r', '<b>\u0085</b>', '<i>]]></i>\r', '> then <\r\r']
 
 EDITS = ['insert_line', 'reverse_lines', 'delete_line', 'swap_reading_order_values', 'reverse_regions', 'swap_regions', 'add_region', 'remove_region',
          'set_text', 'new_reading_order', 'drop_reading_order', 'reading_order_entry_removed', 'nothing']
@@ -200,6 +201,22 @@ def gen(rng, i, ctx):
                 l['polygon'] = l['polygon'] + ([list(first)] if rng.random() < 0.6 else [[first[0] + 0.3, first[1] - 0.2]])
         if rng.random() < 0.1:
             r['polygon'] = r['polygon'] + [list(r['polygon'][0])]
+    # (round 7) inline tags together with a carriage return; confidences outside 0..1 (log-probabilities, percentages); a dangling reading-order entry X next to an unlisted region 'id_X'
+    for r in regions:
+        for l in r['lines']:
+            if rng.random() < 0.06:
+                l['transcription'] = TEXTS7[int(rng.integers(0, len(TEXTS7)))]
+            if l['transcription'] is not None and rng.random() < 0.08:
+                l['conf'] = [1.002, -0.25, 87.5, -1234.5678, 1.0004, -0.0004, 2.0][int(rng.integers(0, 7))]
+        if rng.random() < 0.05:
+            r['text'] = TEXTS7[int(rng.integers(0, len(TEXTS7)))]
+    if ro is not None and rng.random() < 0.35:
+        unlisted = [r for r in regions if r['id'] not in ro]
+        if unlisted:
+            u = unlisted[int(rng.integers(0, len(unlisted)))]
+            stem = 'zz%d' % int(rng.integers(0, 100))
+            u['id'] = 'id_' + stem
+            ro[stem] = int(rng.integers(0, 3))
     case['edits'] = [{'kind': EDITS[int(rng.integers(0, len(EDITS)))], 'a': int(rng.integers(0, 1000)), 'b': int(rng.integers(0, 1000))} for _ in range(int(rng.integers(1, 4)))]
     return case
 
